@@ -83,8 +83,10 @@ func limit(input logical.UnresolvedPlan, offset, limit uint32) logical.Unresolve
 var _ executor.MIterator = (*limitIterator)(nil)
 
 type limitIterator struct {
-	inner  executor.MIterator
-	index  uint32
+	inner executor.MIterator
+	// index counts the rows pulled from inner; 64 bits so that offset+limit
+	// beyond MaxUint32 cannot wrap it and restart the window.
+	index  uint64
 	offset uint32
 	limit  uint32
 }
@@ -106,12 +108,12 @@ func (l *limitIterator) Current() []*measurev1.InternalDataPoint {
 }
 
 func (l *limitIterator) Next() bool {
-	for ; l.index < l.offset; l.index++ {
+	for ; l.index < uint64(l.offset); l.index++ {
 		if !l.inner.Next() {
 			return false
 		}
 	}
-	if (l.index - l.offset) >= l.limit {
+	if (l.index - uint64(l.offset)) >= uint64(l.limit) {
 		return false
 	}
 	l.index++
